@@ -182,7 +182,7 @@ def _worker(item):
 def plan(run):
     quick = run.tier == 'quick'
     settings = [(16, None), (8, None), (32, (8, 8, 16)), (4, (4, 4, -1)), (2, None), (32, (16, 16, 4)), (32, (4, 8, 32)), (16, (8, 4, -1)), (16, (4, 16, -1))]
-    set2d = [(16, None), (8, (1, 4, -1)), (32, (1, 8, 128)), (4, None)]
+    set2d = [(16, None), (8, (1, 4, -1)), (32, (1, 8, 128)), (4, None), (32, (1, 4, -1))]      # the last one with traces longer than its 256-sample block
     cases = []
     k = 0
     geoms = list(GEOMS)
@@ -193,7 +193,8 @@ def plan(run):
             st = (set2d if is2d else settings)[k % (len(set2d) if is2d else len(settings))]
             # rate 16 / 32 keep neighbouring traces distinguishable for the order check at any setting
             cases.append({'geom': g, 'fmt': (5, 1)[k % 2], 'bg': ('mix', 'ramp', 'const', 'zero')[k % 4], 'mode': ('thorough', 'exhaustive', 'heuristic')[k % 3],
-                          'rate': st[0], 'bs': list(st[1]) if st[1] else None, 'route': 'cli' if k % 5 == 0 else 'api', 'nz': (6, 40, 9)[k % 3],
+                          'rate': st[0], 'bs': list(st[1]) if st[1] else None, 'route': 'cli' if k % 5 == 0 else 'api',
+                          'nz': 300 if (is2d and st == (32, (1, 4, -1))) else (6, 40, 9)[k % 3],
                           'delay': (0, 8, -12, 100)[k % 4], 'text': (None, 'nul', None, 'spaces', None, None)[k % 6],
                           # the sample interval in the binary header: as in the trace headers, absent (0), or contradicting them
                           'binint': (None, None, 0, None, 3000, None, None)[k % 7],
